@@ -154,6 +154,7 @@ def gen(n, seed):
     for k, m in enumerate(chosen):
         m['id'] = 'm%03d' % k
         m['status'] = 'new'
+        m['base'] = head()
         m.pop('weight', None)
     os.makedirs(WORK, exist_ok=True)
     json.dump({'pool': len(pool), 'mutants': chosen}, open(os.path.join(WORK, 'mutants.json'), 'w'), indent=1)
@@ -171,9 +172,33 @@ def scratch(m):
             shutil.copy(os.path.join(REPO, f), d)
     p = os.path.join(d, m['file'])
     src = open(p).read()
-    assert src[m['start']:m['end']] == m['old'], 'repo changed since gen'
-    open(p, 'w').write(src[:m['start']] + m['new'] + src[m['end']:])
+    a, b = m['start'], m['end']
+    if src[a:b] != m['old'] or (m.get('base') and m['base'] != head()):
+        a, b = relocate(m, src)
+    assert src[a:b] == m['old'], 'cannot re-locate mutant %s' % m['id']
+    open(p, 'w').write(src[:a] + m['new'] + src[b:])
     return d
+
+
+def head():
+    return subprocess.check_output(['git', '-C', REPO, 'rev-parse', 'HEAD'], text=True).strip()
+
+
+def relocate(m, src):
+    """/repo moved on since `gen` (a fix: commit): find the mutated text again through its line in the base commit."""
+    base = subprocess.check_output(['git', '-C', REPO, 'show', '%s:%s' % (m['base'], m['file'])], text=True)
+    ls = base[:m['start']].count('\n')
+    line_start = base.rfind('\n', 0, m['start']) + 1
+    line_end = base.find('\n', m['start'])
+    text = base[line_start:line_end]
+    col = m['start'] - line_start
+    lines = src.splitlines(True)
+    cands = [i for i, l in enumerate(lines) if l.rstrip('\n') == text]
+    if not cands:
+        raise AssertionError('line of mutant %s is gone' % m['id'])
+    i = min(cands, key=lambda k: abs(k - ls))
+    a = sum(len(x) for x in lines[:i]) + col
+    return a, a + len(m['old'])
 
 
 def load():
